@@ -1,6 +1,138 @@
-From Coq Require Import ZArith QArith List Bool String.
+(* C07 — Multi-AIU clock alignment is a rigid per-rank shift, blind to counter epochs.
+   Property theorems only; model in theories/MpSync.v, proofs in theories/MpSync_proofs.v.
+
+   Reading guide.
+   [mp_run es]        the whole mp_sync_tight_v1 stage on the event stream es: every event is buffered by the
+                      callback, the context's drain() returns [Ok out] (or [Err tag] = the exception / sys.exit);
+   [gather_all es]    the context after the last callback: buffer, proc_ids (pids that own a collective event),
+                      coll_groups (group names seen on pid 0);
+   [active s]         the drain's own test "at least one collective group and more than one pid";
+   [calib_of s = Ok c]  the calibration: c_shifts (dts_shifts per pid), c_off (dts_2_hts_ref_offset),
+                      c_tree (TP_tree_reduce), c_idx (reference group);
+   [has_ts5 e]        "TS5" in e.args: a device slice;  [dev_of e] = args.ts_dev = [TS1..TS5]/soc_frequency;
+   [op_id name]       index of the phase start counter: DmaI 0 (TS1), Prep 1 (TS2), Exec 2 (TS3), DmaO 3 (TS4), else 0;
+   [off c pid]        the placement offset of a rank = dts_shifts[pid] + dts_2_hts_ref_offset;
+   [placed c e e']    e' is e moved to ts = ts_dev[op_id] + off c pid, same dur/uid/pid/name, ts_dev and ts_all
+                      shifted by the rank constants — or e itself when e carries no TS5;
+   [emit l]           reversed buffer, stably sorted by ts (what the drain finally returns);
+   [bump k e]         e with k(pid e) added to all five device times (its rank's counters offset by k(pid)*f cycles);
+   [tree_es es]       rank 0's events of the first used group carry "AllReduce_all_reduce" in their names (true for
+                      every chain all-reduce trace: the sync tags contain the group name);
+   [same_view a b]    a and b agree on uid, pid, name, ts (as rationals), dur, group, TS5 flag and args.ts_all;
+   [last_end es gs p k j]  the greatest ts_dev[k] among the events of rank p in the j-th used group.
+   All statements hold for every stream, every number of ranks/groups and all rational times; nothing is bounded. *)
+From Coq Require Import ZArith QArith List Bool String Lia Permutation Sorted.
 Import ListNotations.
 From AiuModel Require Import Base MpSync MpSync_proofs.
-Theorem C07_noop_pre : forall es, active (gather_all es) = false -> mp_run es = Ok (emit (all_events (gather_all es))).
+Local Open Scope Z_scope.
+
+(* (1) THE rigid shift: whenever the stage returns after aligning, there is one calibration c — hence one offset
+   [off c pid] per rank — such that every buffered event comes out [placed]: device slices at
+   ts_dev[phase start] + off(pid) with their duration untouched, everything else unchanged; and the output is
+   just the stable ts-sort of the reversed buffer. *)
+Theorem C07_rigid :
+  forall (es out : list ev), mp_run es = Ok out -> active (gather_all es) = true ->
+    exists c es', calib_of (gather_all es) = Ok c /\ Forall2 (placed c) es es' /\ out = emit es'.
+Proof. exact rigid. Qed.
+Print Assumptions C07_rigid.
+
+(* (1') in terms of cycle counters: with ts_dev = [TS1..TS5]/f (what tighten_hts_by_instr_type stores, C06) a placed
+   device slice sits at TSa/f + off(pid), TSa the start counter of its phase, and keeps its duration *)
+Theorem C07_rigid_counters :
+  forall (c : calib) (e e' : ev) (f : Q) (cs : list Z),
+    placed c e e' -> has_ts5 e = true ->
+    dev_of e = Some (map (fun z => (inject_Z z / f)%Q) cs) -> (op_id (e_name e) < List.length cs)%nat ->
+    (e_ts e' == inject_Z (nth (op_id (e_name e)) cs 0%Z) / f + off c (e_pid e))%Q /\ e_dur e' = e_dur e.
+Proof. exact placed_counters. Qed.
+Print Assumptions C07_rigid_counters.
+
+(* (2) no action: fewer than two pids with collective events, or no collective group on pid 0 -> nothing but the
+   re-sort happens (no field of any event changes) *)
+Theorem C07_noop :
+  forall es, active (gather_all es) = false -> mp_run es = Ok (emit es).
 Proof. exact noop. Qed.
-Print Assumptions C07_noop_pre.
+Print Assumptions C07_noop.
+
+Theorem C07_noop_single_rank :
+  forall es p, (forall e, In e es -> e_pid e = p) -> mp_run es = Ok (emit es).
+Proof. exact noop_single_rank. Qed.
+Print Assumptions C07_noop_single_rank.
+
+Theorem C07_noop_collective_free :
+  forall es, (forall e, In e es -> cg_of e = None) -> mp_run es = Ok (emit es).
+Proof. exact noop_collective_free. Qed.
+Print Assumptions C07_noop_collective_free.
+
+(* (3) the drain returns every buffered event exactly once, sorted by ts (used by C01 and C13) *)
+Theorem C07_perm :
+  forall es out, mp_run es = Ok out ->
+    Permutation (map e_uid out) (map e_uid es) /\ StronglySorted ts_le out /\ List.length out = List.length es.
+Proof. exact perm_sorted. Qed.
+Print Assumptions C07_perm.
+
+(* (4) epoch blindness: offset all cycle counters of every rank by its own arbitrary constant k(pid) — the stage
+   still returns, and every drained event is the same as before in everything the export can see (same order,
+   same uid, same ts, same dur, same wall-clock TS1..TS5).  Hypotheses: the chain-allreduce branch ([tree_es]) and
+   non-negative pids on device slices (dts_shifts[pid] wraps around for negative pids). *)
+Theorem C07_epoch_blind :
+  forall (k : Z -> Q) (es out : list ev),
+    mp_run es = Ok out -> tree_es es = true ->
+    (forall e, In e es -> has_ts5 e = true -> 0 <= e_pid e) ->
+    exists out2, mp_run (map (bump k) es) = Ok out2 /\ Forall2 same_view out out2.
+Proof. exact epoch_blind. Qed.
+Print Assumptions C07_epoch_blind.
+
+(* (5) what "aligned on their collectives" means after the calibration (tree branch): on the shifted device clocks
+   rank 0 is the reference (shift 0); in no used group does rank 1's last receive (TS2) end before rank 0's last
+   send (TS5), with equality in the reference group c_idx; every further rank ends its last receive of the FIRST
+   used group together with rank 1. *)
+Theorem C07_aligned :
+  forall es c,
+    active (gather_all es) = true -> calib_of (gather_all es) = Ok c -> c_tree c = true ->
+    let gs := groups_used (coll_groups (gather_all es)) in
+    let np := List.length (proc_ids (gather_all es)) in
+    (shift_of c 0 == 0)%Q /\
+    (forall j, (j < List.length gs)%nat ->
+       (last_end es gs 0 4 j + shift_of c 0 <= last_end es gs 1 1 j + shift_of c 1)%Q) /\
+    (c_idx c < List.length gs)%nat /\
+    (last_end es gs 1 1 (c_idx c) + shift_of c 1 == last_end es gs 0 4 (c_idx c) + shift_of c 0)%Q /\
+    (forall r, (2 <= r < np)%nat ->
+       (last_end es gs (Z.of_nat r) 1 0 + shift_of c (Z.of_nat r) == last_end es gs 1 1 0 + shift_of c 1)%Q).
+Proof. exact aligned. Qed.
+Print Assumptions C07_aligned.
+
+(* (6) documentation: in the other branch (rank 0's names without the tag: P_map reversed, the reference offset is
+   taken from a rank that is itself shifted) statement (4) is FALSE for three ranks — a computed witness.  Such
+   inputs are outside the property's scenario class. *)
+Theorem C07_reversed_branch_refuted :
+  exists (k : Z -> Q) (es out out2 : list ev),
+    tree_es es = false /\ (forall e, In e es -> has_ts5 e = true -> 0 <= e_pid e) /\
+    mp_run es = Ok out /\ mp_run (map (bump k) es) = Ok out2 /\ ~ Forall2 same_view out out2.
+Proof. exact reversed_branch_refuted. Qed.
+Print Assumptions C07_reversed_branch_refuted.
+
+(* ---- non-vacuity: a three-rank tagged trace meets every hypothesis above *)
+Example C07_premises_met :
+  active (gather_all wit_tree) = true /\ tree_es wit_tree = true /\
+  (exists out, mp_run wit_tree = Ok out) /\
+  (exists c, calib_of (gather_all wit_tree) = Ok c /\ c_tree c = true) /\
+  (forall e, In e wit_tree -> has_ts5 e = true -> 0 <= e_pid e).
+Proof.
+  split; [vm_compute; reflexivity|]. split; [vm_compute; reflexivity|].
+  split; [eexists; vm_compute; reflexivity|]. split; [eexists; split; vm_compute; reflexivity|].
+  intros e He _. simpl in He. destruct He as [<-|[<-|[<-|[<-|[]]]]]; simpl; lia.
+Qed.
+
+(* the aligned trace really moves the ranks (rank 1 from 20 to 10, rank 2 from 30 to 10: both receives now end
+   with rank 0's send) and leaves the host slice alone; equal ts come out in reversed buffer order *)
+Example C07_concrete :
+  match mp_run wit_tree with
+  | Ok out => map (fun e => (e_uid e, Qred (e_ts e))) out = [(4, 5%Q); (3, 10%Q); (2, 10%Q); (1, 10%Q)]
+  | Err _ => False
+  end.
+Proof. vm_compute. reflexivity. Qed.
+
+(* the no-op premises are met as well: one rank / no collective *)
+Example C07_noop_premises_met :
+  active (gather_all [wit_ev 1 0 "a DmaO" 3%Q; wit_ev 2 0 "b DmaI" 1%Q]) = false.
+Proof. vm_compute. reflexivity. Qed.
